@@ -205,6 +205,7 @@ def run(ctx):
         hs = [rnd_table(rnd, mode if i == 0 else "plain", first=(i == 0)) for i in range(rnd.randint(1, 3))]
         rev = rnd.random() < 0.5
         runs = []
+        alt_masks = rnd.choice([None, ("a{n:\\d+}.ex", "b{n:\\d+}.ex"), ("{x:[a]}{n}.ex", "{x:[b]}{n}.ex")])
         short = rnd.random() < 0.3          # rules written for short host names (registry option match_short_name), devices carry FQDNs
         nested = short and rnd.random() < 0.5
         for perm in itertools.permutations(range(len(hs))):
@@ -212,10 +213,15 @@ def run(ctx):
             reg = MeshRulesRegistry(match_short_name=True) if short else MeshRulesRegistry()
             lm, rm = ("a{n}", "b{n}") if short else ("a{n}.ex", "b{n}.ex")
             for hi in perm:
+                # the rules feeding one session need not be written with the same name templates: later handlers may sit behind
+                # templates that capture the number as text (`{n:\\d+}`) or by another route (`{x}{n}`)
+                l2, r2 = (lm, rm)
+                if hi > 0 and alt_masks and not short:
+                    l2, r2 = alt_masks
                 if kind == "direct":
-                    reg.direct(lm, rm, port_processor=united_ports)(mk_handler(hs[hi], hi))
+                    reg.direct(l2, r2, port_processor=united_ports)(mk_handler(hs[hi], hi))
                 else:
-                    reg.indirect(lm, rm)(mk_handler(hs[hi], hi))
+                    reg.indirect(l2, r2)(mk_handler(hs[hi], hi))
             if nested:                      # ... also when that registry is included into a plain one
                 outer = MeshRulesRegistry()
                 outer.include(reg)
